@@ -372,5 +372,90 @@ def _bools(e):
     return out
 
 
+class BoundedSearchUnit:
+    """bounded stand-ins for the pre-filter and for _match_regex (see replay/bounded_search.py)"""
+    kind = "bounded"
+    name = "partial_parse._seq_match+ctparse._match_regex[bounded]"
+    props = {"C15"}
+    cost = 3
+
+    def sha(self, world):
+        return "+".join(world.sha(world.func(q)) for q in ("partial_parse._seq_match", "partial_parse.PartialParse._filter_rules",
+                                                            "ctparse._match_regex"))
+
+    def run(self, world, prop, tier):
+        import json
+        import os
+        import subprocess
+        from pyvc.vcgen import Obligation
+        from pyvc import world as W
+        env = dict(os.environ, PYTHONPATH=world.repo + os.pathsep + W.VERIF, PYTHONDONTWRITEBYTECODE="1")
+        p = subprocess.run([W.VENV_PY, "-W", "ignore", os.path.join(W.VERIF, "replay", "bounded_search.py"), tier],
+                           cwd=world.repo, env=env, capture_output=True, text=True, timeout=3000)
+        o = Obligation(self.name, "pre-filter-loses-no-rule-and-every-match-is-reported", ["C15"])
+        o.kind = "bounded"
+        o.bounded = True
+        o.paths = 1
+        info = {"paths": 1}
+        try:
+            r = json.loads(p.stdout.strip().splitlines()[-1])
+        except Exception:
+            o.status, o.detail = "unsupported", "bounded check crashed: " + (p.stderr or p.stdout)[-800:]
+            return [o], info
+        info["bounded"] = [{"what": self.name, "bound": r["bound"], "cases": r["cases"], "distinct": r["distinct"],
+                            "failures": len(r["bad"]), "props": ["C15"]}]
+        if r["bad"]:
+            o.status = "failed"
+            o.detail = json.dumps(r["bad"][0])[:600]
+            o.cex = {"args": {"kind": "bounded", "examples": r["bad"]}}
+            o.confirmed_natively = True
+        return [o], info
+
+
+def from_regex_matches_unit(world):
+    """PartialParse.from_regex_matches: fresh partial parse over exactly the given matches, trace = their
+    ids, applicable rules = a sub-dictionary of the rule base; nothing outside the call is written"""
+    def setup(it, w):
+        ms = []
+        for i, rid in enumerate((100, 101)):
+            o = Obj(w.classes["RegexMatch"], fresh=False, label="m%d" % i)
+            o.attrs.update({"_attrs": ["mstart", "mend", "id"], "mstart": 4 * i, "mend": 4 * i + 3, "id": rid})
+            ms.append(o)
+        return [tuple(ms), {}]
+
+    def call(it, w, a):
+        ms, seen = a
+        rm = w.modules["ctparse.rule"]
+        mk = lambda name, arg: it.call(rm.globals[name], [arg], {})
+        rules = {"ruleA": (Tok("fA"), [mk("regex_match", 100), mk("predicate", "isDOM")]),
+                 "ruleB": (Tok("fB"), [mk("predicate", "isDOM"), mk("regex_match", 102)]),
+                 "ruleC": (Tok("fC"), [mk("regex_match", 100), mk("dimension", w.classes["Time"]), mk("regex_match", 101)]),
+                 "ruleD": (Tok("fD"), [mk("predicate", "isDOW")])}
+        seen["rules"] = rules
+        pm = w.modules["ctparse.partial_parse"]
+        old = pm.globals.get("global_rules")
+        pm.globals["global_rules"] = rules
+        w.global_container_ids.add(id(rules))
+        try:
+            cls = w.classes["PartialParse"]
+            return it.call(it.getattr_(cls, "from_regex_matches"), [ms], {})
+        finally:
+            pm.globals["global_rules"] = old
+            w.global_container_ids.discard(id(rules))
+
+    def ens(it, w, a, r):
+        ms, seen = a
+        ok = isinstance(r, Obj) and r.cls.name == "PartialParse" and r.fresh
+        ar = r.attrs.get("applicable_rules") if ok else None
+        return [("partial-parse-over-exactly-the-matches", ["C15"], ok and r.attrs.get("prod") is ms and r.attrs.get("rules") == (100, 101)),
+                ("applicable-rules-are-rules-of-the-base", ["C15", "C12"],
+                 isinstance(ar, dict) and ar is not seen["rules"] and all(k in seen["rules"] and v is seen["rules"][k] for k, v in ar.items())),
+                ("pre-filter-keeps-what-can-still-match", ["C15"], isinstance(ar, dict) and "ruleA" in ar and "ruleD" in ar and "ruleB" not in ar),
+                ("rule-base-unchanged", ["C12", "C15"], set(seen["rules"]) == {"ruleA", "ruleB", "ruleC", "ruleD"})]
+    return FuncUnit("partial_parse.PartialParse.from_regex_matches", ["partial_parse.PartialParse.from_regex_matches",
+                    "partial_parse.PartialParse._filter_rules", "partial_parse._seq_match", "timers.timeit"],
+                    ["C15", "C12", "C01"], setup, call, ens, prop_map={"safety": ["C15", "C01"], "frame": ["C12", "C15"]})
+
+
 def units(world):
-    return [match_rule_unit(world), lt_unit(world), GapUnit()] + apply_rule_units(world) + regex_stack_units(world)
+    return [match_rule_unit(world), lt_unit(world), GapUnit(), BoundedSearchUnit(), from_regex_matches_unit(world)] + apply_rule_units(world) + regex_stack_units(world)
